@@ -54,25 +54,6 @@ def c18_two_paths_one_signature():
         return {"reproduces": nodes != ["/one", "/two"], "detail": "kept paths /one and /two, graph nodes %s" % nodes}
 
 
-def c14_module_attribute_variable():
-    """C14-KF1: a tracked variable of an accepted module read as `module.VAR` does not influence the signature."""
-    dds = common.import_dds()
-    store = ws.recording_store()
-    dds.set_store(store)
-    with ws.Workspace("kf_c14") as w:
-        pkg = w.unique("kfp")
-        w.write_module(pkg + ".conf", "VAR = 1\n")
-        src = "import dds\nimport %s.conf as conf\n\ndef f():\n    return 'v' + str(conf.VAR)\n" % pkg
-        m = w.write_module(pkg + ".main", src)
-        v1 = dds.keep("/kfv", m.f)
-        s1 = store.synced[-1]["/kfv"]
-        w.rewrite_module(pkg + ".conf", "VAR = 2\n")
-        m = w.rewrite_module(pkg + ".main", src)
-        v2 = dds.keep("/kfv", m.f)
-        s2 = store.synced[-1]["/kfv"]
-        return {"reproduces": s1 == s2 and v2 == "v1", "detail": "conf.VAR edited 1 -> 2: signature %s, value served %r (plain execution: 'v2')" % ("unchanged" if s1 == s2 else "changed", v2)}
-
-
 def run_witness(res, fid, fn, what):
     """adds the known violation (tagged with its id) when it reproduces"""
     try:
